@@ -20,7 +20,7 @@ if [ "$APPLY" = failed ]; then
   echo "$ID: PATCH DOES NOT APPLY on $(git -C /repo rev-parse --short HEAD)"
   git -C /repo worktree remove --force "$WT"; rm -f "$WT.demo"; rmdir "$OUT" 2>/dev/null; exit 4
 fi
-git -C "$WT" diff > "$OUT/patch.diff"
+git -C "$WT" diff HEAD > "$OUT/patch.diff"
 MUT_RC=$(run_demo)
 tail -5 "$WT.demo" > "$OUT/demo_output_with_patch.txt"
 (cd "$WT" && /venv/bin/python -m pytest -q -p no:cacheprovider --basetemp="$WT.bt" --timeout=900 > "$WT.suite" 2>&1)
